@@ -8,6 +8,7 @@ Abstract inputs (small JSON):
                                                  sf = sender filter or None; last = bool
       ['u', [item, ...]]                         unconnect; item = ['f', fid, name, owner] | ['o', obj]
       ['r'] reset   ['ss', bool] set_silent   ['en'] enter `with silent():`   ['ex'] leave the innermost block
+      ['exx'] leave the innermost block because an exception propagates out of it (stage 3)
       ['e', ev, snd, args, kw, single]           emit(event, sender, *args, **kw[, single=...]); single None|bool
   kind 'histx': inp = {'ops': [...as 'hist'...], 'raise': [fid, ...]}: the callbacks with these ids raise after
       recording the call; an emit is then observed as ['raise', calls made] when the exception propagated
@@ -21,7 +22,9 @@ from .. import coqenc as q
 ID = 'C19'
 RULE = ('exhaustive: every well-bracketed operation sequence up to the tier\'s length over a 12-operation '
         'emitter alphabet (3 connects: by name / explicit event / sender-filtered / last; unconnect by function '
-        'and by sender; reset; silent() enter/leave; set_silent True/False; two emits, one single) that contains '
+        'and by sender; reset; silent() enter/leave; set_silent True/False; two emits, one single; thorough: plus '
+        'leave-by-exception) and over a 7-operation silencing alphabet (connect, enter, leave, leave by an '
+        'exception, set_silent True/False, emit) one step longer, that contains '
         'an emit, and every reporter history up to the tier\'s length over {increment, value in 0/1/2/5, maximum '
         'in 0/1/2/5, set_complete, reset(None/1/5)}; then seeded random longer histories over the wide alphabet '
         '(2 events, 3 senders, 5 callbacks incl. bound methods, multi-item unconnect, arguments/keywords, '
@@ -42,8 +45,8 @@ CLAUSES = {
     28: 'C19_dispatch_raising: a raising callback ends the emit (calls = expected prefix up to it, exception propagated)',
 }
 TRUSTED = ['CPython function/bound-method identity and ==, contextlib.contextmanager (LIFO exit of with-blocks)']
-ASSUMES = ['silent() blocks are left normally and in LIFO order (a `with` statement); set_silent inside a block is '
-           'covered (C19_dispatch_all)',
+ASSUMES = ['silent() blocks are left in LIFO order (a `with` statement), normally or by an exception; set_silent '
+           'inside a block is covered (C19_dispatch_all)',
            'the statement is read for callbacks that do not raise (raising ones: C19_dispatch_raising, clause 28); '
            'callbacks do not re-enter the emitter; unconnect items are never None',
            'reporter histories are not run while the emitter is silenced; values and maxima are integers']
@@ -69,7 +72,7 @@ def E(ev=0, snd=0, args=(), kw=(), single=None):
     return ['e', ev, snd, list(args), [list(x) for x in kw], single]
 
 
-R, EN, EX = ['r'], ['en'], ['ex']
+R, EN, EX, EXX = ['r'], ['en'], ['ex'], ['exx']
 
 
 def SS(b):
@@ -82,7 +85,7 @@ def normalise(ops):
     for o in ops:
         if o[0] == 'en':
             d += 1
-        elif o[0] == 'ex':
+        elif o[0] in ('ex', 'exx'):
             if d == 0:
                 continue
             d -= 1
@@ -117,16 +120,19 @@ def _wellbracketed(seq):
     for o in seq:
         if o[0] == 'en':
             d += 1
-        elif o[0] == 'ex':
+        elif o[0] in ('ex', 'exx'):
             if d == 0:
                 return False
             d -= 1
     return True
 
 
-def _exhaustive_hist(maxlen):
+SILENCING = [C(F0), EN, EX, EXX, SS(True), SS(False), E(0, 0, (7,))]
+
+
+def _exhaustive_hist(maxlen, alpha=None):
     for n in range(1, maxlen + 1):
-        for seq in itertools.product(SMALL, repeat=n):
+        for seq in itertools.product(alpha or SMALL, repeat=n):
             if seq[-1][0] != 'e':
                 # operations after the last emit are unobservable: the same history without them is enumerated
                 continue
@@ -193,8 +199,10 @@ def _rand_op(rng):
         return R
     if r < 0.54:
         return EN
-    if r < 0.62:
+    if r < 0.59:
         return EX
+    if r < 0.62:
+        return EXX
     if r < 0.68:
         return SS(rng.random() < 0.5)
     args = rng.choice([(), (7,), (1, 2), (0,)])
@@ -259,6 +267,11 @@ def corpus():
     cs.append(_hist([C(F0), EN, SS(False), EN, e, SS(False), e, EX, e, EX, e]))    # nested, set_silent in both
     cs.append(_hist([C(F0), EN, EN, SS(False), EX, e, SS(False), e, EX, e]))       # inner block restores True
     cs.append(_hist([C(F0), SS(True), EN, EX, e, EN, SS(False), EX, e, SS(False), EN, SS(True), EX, e]))
+    # --- a block left by an exception (fixed: property=C19 56f11b0): minimal failing inputs ---
+    cs.append(_hist([C(F0), EN, EXX, e]))                                # stayed silenced for good
+    cs.append(_hist([C(F0), EN, EN, EXX, e, EX, e]))                     # inner block left by an exception
+    cs.append(_hist([C(F0), SS(True), EN, SS(False), EXX, e, SS(False), e]))   # restores set_silent(True)
+    cs.append(_hist([C(F0), EN, EXX, EN, EX, e, EN, e, EXX, e]))
     # --- raising callbacks (stage 3) ---
     cs.append(_histx([C(F0), C(F1, 0), C(F2, 0), e, e], [1]))            # F0 called, F1 raises, F2 never called
     cs.append(_histx([C(F2, 0, None, True), C(F0), C(F1, 0), e], [0]))   # first raises: the 'last' one is not reached
@@ -293,7 +306,8 @@ def generate(tier, rng):
             cases.append(_rand_histx(rng, 2, 10))
         return cases
     quick = tier == 'quick'
-    cases += list(_exhaustive_hist(4 if quick else 5))
+    cases += list(_exhaustive_hist(4, SMALL) if quick else _exhaustive_hist(5, SMALL + [EXX]))
+    cases += list(_exhaustive_hist(5 if quick else 6, SILENCING))
     cases += list(_exhaustive_prog(PQUICK if quick else PSMALL, 4 if quick else 5))
     if quick:
         cases += list(_exhaustive_prog(PSMALL, 3))
@@ -353,6 +367,10 @@ def _dec_kw(kwargs):
             ki = 98
         out.append([ki, _dec_int(v)])
     return sorted(out)
+
+
+class _BlockError(Exception):
+    """The exception that leaves a silent() block in an 'exx' operation."""
 
 
 class _Boom(Exception):
@@ -465,6 +483,16 @@ class _World(object):
             cm = self.stack.pop()
             cm.__exit__(None, None, None)
             return ['n']
+        if k == 'exx':
+            # what a `with` statement does when its body raises: __exit__(type, value, traceback);
+            # a false result means the exception goes on propagating
+            cm = self.stack.pop()
+            exc = _BlockError('raised inside the block')
+            try:
+                swallowed = cm.__exit__(_BlockError, exc, None)
+            except _BlockError as e2:
+                return ['n'] if e2 is exc else ['exc', 'other-exception']
+            return ['exc', 'exception-swallowed'] if swallowed else ['n']
         if k == 'e':
             _, evn, snd, args, kw, single = o
             kwargs = dict(('k%d' % a, b) for a, b in kw)
@@ -649,6 +677,8 @@ def _op(o):
         return 'SilentEnter'
     if k == 'ex':
         return 'SilentExit'
+    if k == 'exx':
+        return 'SilentExitExc'
     if k == 'e':
         _, ev, snd, args, kw, single = o
         return q.app('Emit', q.z(ev), q.z(snd), _pl(args, sorted(kw)), _optb(single))
@@ -799,9 +829,13 @@ def dist(case, obs):
             if o[0] == 'en':
                 d += 1
                 md = max(md, d)
-            elif o[0] == 'ex':
+            elif o[0] in ('ex', 'exx'):
                 d -= 1
         out.append('hist.max_silent_depth=%d' % md)
+        if any(o[0] == 'exx' for o in ops):
+            out.append('hist.has_exit_by_exception')
+        if any(o[0] == 'ss' for o in ops) and md:
+            out.append('hist.has_set_silent_and_block')
         out.append('hist.emits=%s' % _bucket(sum(1 for o in ops if o[0] == 'e')))
         out.append('hist.configs_distinct=%d' % len(obs[1]))
         run = obs[1][0]
@@ -858,7 +892,7 @@ def shrink(case):
     for a in range(len(ops)):
         if ops[a][0] == 'en':
             for b_ in range(a + 1, len(ops)):
-                if ops[b_][0] == 'ex':
+                if ops[b_][0] in ('ex', 'exx'):
                     c = emit_(ops[:a] + ops[a + 1:b_] + ops[b_ + 1:])
                     if c:
                         yield c
@@ -873,6 +907,8 @@ def shrink(case):
                 alts.append(o[:4] + [[]] + o[5:])
             if o[5] is False:
                 alts.append(o[:5] + [None])
+        elif o[0] == 'exx':
+            alts.append(['ex'])
         elif o[0] == 'u' and len(o[1]) > 1:
             for j in range(len(o[1])):
                 alts.append(['u', o[1][:j] + o[1][j + 1:]])
